@@ -242,9 +242,25 @@ theorem remove_ok (F : TFacts) (op target : List J) : LockOK re aw [] (remove F 
   apply Lk.bind (Lk.idsM _ _); intro tIds
   exact Lk.forM _ (fun t => removeLoop_ok F opIds t) _
 
+theorem dedupeKey_ok {H : List Iri} (F : TFacts) (j : J) : LockOK re aw H (dedupeKey F j) := by
+  unfold dedupeKey
+  lk_auto
+
+theorem dedupeGo_ok {H : List Iri} (F : TFacts) (xs : List J) (seen : List Iri) : LockOK re aw H (dedupeGo F xs seen) := by
+  induction xs generalizing seen with
+  | nil => exact Lk.pure' _
+  | cons j rest ih =>
+    unfold dedupeGo
+    apply Lk.bind (dedupeKey_ok F j); intro id
+    split
+    · exact ih _
+    · exact Lk.bind (ih _) fun _ => Lk.pure' _
+
 theorem dedupeOrderedItems_ok {H : List Iri} (F : TFacts) (oc : J) : LockOK re aw H (dedupeOrderedItems F oc) := by
   unfold dedupeOrderedItems
-  lk_auto
+  split
+  · exact Lk.pure' _
+  · exact Lk.bind (dedupeGo_ok F _ _) fun _ => Lk.pure' _
 
 theorem addResponseHeaders_ok {H : List Iri} : LockOK re true H addResponseHeaders := by
   unfold addResponseHeaders
